@@ -57,11 +57,20 @@ class Gen:
             return "self.bump()"
         return f"np.ident({self.atom(defined)})"
 
-    def cond(self, defined):
+    def cond(self, defined, depth=0):
         r = self.r
+        k = r.random()
+        if k < 0.12 and depth < 2:
+            return f"not {self.cond(defined, depth + 1)} or not {self.cond(defined, depth + 1)}"
+        if k < 0.2 and depth < 2:
+            return f"({self.cond(defined, depth + 1)}) {r.choice(['and', 'or'])} ({self.cond(defined, depth + 1)})"
+        if k < 0.3:
+            return f"{self.atom(defined)} {r.choice(['is', 'is not'])} None"
+        if k < 0.38:
+            return f"{self.atom(defined)} {r.choice(['in', 'not in'])} lst"
         a, b = self.expr(defined, 1), self.expr(defined, 1)
         c = f"{a} {r.choice(['<', '>', '<=', '>=', '==', '!='])} {b}"
-        return f"not {c}" if r.random() < 0.3 else c
+        return f"not ({c})" if r.random() < 0.3 else c
 
     def block(self, defined, depth, in_loop):
         """returns (lines, defined after)"""
@@ -105,6 +114,30 @@ class Gen:
                 eff_ = r.choice(["self.bump()", "eff(lst[0])", "eff(self.p)"])
                 out.append(r.choice([f"{w} = {eff_} * 10 + {v}", f"{w} = {v} + {eff_} * 10", f"lst[{eff_} % 2] = {v}", f"{w} = np.sq({v}) - {eff_}"]))
                 defined |= {v, w} if not out[-1].startswith("lst[") else {v}
+            elif c < 0.62 and self.helpers:
+                h = r.choice(self.helpers)
+                call = f"{h}(self, {self.expr(defined, 1)}, {self.atom(defined)}, lst, keep)"
+                k = r.random()
+                if k < 0.6:
+                    v = self.fresh()
+                    out.append(f"{v} = {call}")
+                    out.append(f"{v} = 0 if {v} is None else {v}")
+                    defined.add(v)
+                elif k < 0.8:
+                    out.append(call)
+                else:
+                    out.append(f"return {call}")
+                    break
+            elif c < 0.66 and depth < 3:
+                body, d1 = self.block(defined, depth + 1, in_loop)
+                out.append("try:")
+                out += ["    " + ln for ln in body]
+                out.append("except KeyError:")
+                out.append("    " + (r.choice(["continue", "break"]) if in_loop and r.random() < 0.5 else f"return {self.atom(defined)}"))
+                if r.random() < 0.6:
+                    els, _ = self.block(d1, depth + 1, in_loop)
+                    out.append("else:")
+                    out += ["    " + ln for ln in els]
             elif c < 0.72 and depth < 3:
                 body, d1 = self.block(defined, depth + 1, in_loop)
                 out.append(f"if {self.cond(defined)}:")
@@ -132,12 +165,29 @@ class Gen:
                 out.append(f"eff({self.expr(defined)})")
         return out, defined
 
-    def program(self):
-        self.k = 0
+    def function(self, name):
         body, _ = self.block({"a", "b"}, 0, False)
         if self.r.random() < 0.7:
             body.append("return " + self.expr({"a", "b"}))
-        return "def f(self, a: int, b, lst, keep):\n" + "\n".join("    " + ln for ln in body) + "\n"
+        return f"def {name}(self, a: int, b, lst, keep):\n" + "\n".join("    " + ln for ln in body) + "\n"
+
+    def program(self):
+        """(helper sources, main source): helpers are new module-level functions or closures the main function calls"""
+        self.k = 0
+        self.helpers = []
+        helpers = []
+        for i in range(self.r.choice([0, 0, 1, 2])):
+            helpers.append(self.function(f"h{i + 1}"))
+        self.helpers = [f"h{i + 1}" for i in range(len(helpers))]
+        main = self.function("f")
+        self.helpers = []
+        closures = []
+        if helpers and self.r.random() < 0.4:
+            # the last helper becomes a closure defined at the top of the main function
+            closures = [helpers.pop()]
+            head, rest = main.split("\n", 1)
+            main = head + "\n" + "\n".join("    " + ln for ln in closures[0].rstrip("\n").split("\n")) + "\n" + rest
+        return helpers, main
 
 
 class Obj:
@@ -160,7 +210,7 @@ class NP:
         return x
 
 
-def run(src, a, b, p, q):
+def run(src, a, b, p, q, prelude=""):
     log = []
     lst = [a, b, 7]
     keep = []
@@ -170,7 +220,7 @@ def run(src, a, b, p, q):
         log.append(("eff", repr(x), o.p, repr(lst)))
         return x + 1
     env = {"np": NP, "eff": eff, "tbl": {0: 1, 1: 5, 2: 2}}
-    exec(compile(src, "<prog>", "exec"), env)
+    exec(compile(prelude + src, "<prog>", "exec"), env)
     try:
         res = ("ret", env["f"](o, a, b, lst, keep))
     except RecursionError:
@@ -191,27 +241,42 @@ def main():
     g = Gen(rng)
     bad = 0
     changed = 0
+    folded = 0
     for k in range(n):
-        src = g.program()
+        helpers, src = g.program()
+        prelude = "\n".join(helpers) + "\n" if helpers else ""
         try:
-            ast.parse(src)
+            ast.parse(prelude + src)
         except SyntaxError:
             continue
-        fn = canon.canonical_tree(src)
+        functions = {}
+        for h in helpers:
+            hf = ast.parse(h).body[0]
+            shape = canon.helper_shape(hf)
+            calls_itself = any(isinstance(n_, ast.Name) and n_.id == hf.name for n_ in ast.walk(hf))
+            if shape is not None and not calls_itself:
+                functions[hf.name] = shape
+        try:
+            fn = canon.canonical_tree(src, (functions, {}, None), set())
+        except RecursionError:
+            continue
         if fn is None:
             continue
         can = ast.unparse(ast.fix_missing_locations(ast.Module(body=[fn], type_ignores=[])))
         if ast.dump(ast.parse(can)) != ast.dump(ast.parse(src)):
             changed += 1
+        if (helpers or "def h" in src) and not any(f"h{i}(" in can for i in (1, 2)):
+            folded += 1
         for _ in range(6):
             args = [rng.randint(-3, 4) for _ in range(4)]
-            r1, r2 = run(src, *args), run(can, *args)
+            r1, r2 = run(src, *args, prelude=prelude), run(can, *args, prelude=prelude)
             if r1 != r2:
                 bad += 1
-                print("=" * 100, "\nMISMATCH on", args, "\n--- program\n" + src + "--- canonical\n" + can + "\n--- outcomes\n", r1, "\n", r2)
+                print("=" * 100, "\nMISMATCH on", args, "\n--- helpers\n" + prelude + "--- program\n" + src + "--- canonical\n" + can + "\n--- outcomes\n", r1, "\n", r2)
                 break
         if bad >= 5:
             break
+    print(f"{folded} programs had every helper call folded back")
     print(f"{k + 1} programs, {changed} rewritten by the canonicaliser, {bad} behavioural mismatches")
     return 1 if bad else 0
 
